@@ -44,7 +44,9 @@ def acc_dt(x):
     if isinstance(zn, str) and zn in obs._names() and len(tzref.zone(zn).solve(obs.wall_us(f) // US)) >= 2:
         fold = x.fold
     tzn = x.tzname() if x.tzinfo is not None else None
-    return ("DateTime", f, o, obs.instant_us(x), fold, zn, obs.tzkind(x), tzn)
+    # (a COPY reproduces the fold attribute as it is, also where it does not select anything - unlike values reached by
+    # different routes, whose raw flag is not compared)
+    return ("DateTime", f, o, obs.instant_us(x), fold, zn, obs.tzkind(x), tzn, x.fold)
 
 
 def acc_of(pendulum, x):
